@@ -14,6 +14,7 @@ import json
 import os
 import re
 import shutil
+import threading
 
 import tlaval
 import vlib
@@ -170,7 +171,9 @@ def _judge(ctx, traces, shard_lines, label, report=16):
         ctx.cov['rejected_scenarios'] = len(rejected)
         # a spread over the shards (the random programs come last)
         step = max(1, len(rejected) // report)
-        chosen = rejected[::step][:report - 1] + [rejected[-1]]
+        chosen = rejected[::step][:report - 1]
+        if rejected[-1] not in chosen:
+            chosen.append(rejected[-1])
         rd = ctx.sub('rejected')
         paths = []
         for i, (hdr, sc) in enumerate(chosen):
@@ -184,8 +187,61 @@ def _judge(ctx, traces, shard_lines, label, report=16):
     return accepted
 
 
+def _canary(ctx, trace):
+    """The binding is not vacuous: an accepted event with one output corrupted must be rejected
+    (machinery failure otherwise).  Three corruptions of one event, one TLC run each."""
+    with open(trace) as f:
+        hdr = f.readline().rstrip('\n')
+        cand = None
+        for l in f:
+            if not l.startswith('{"op":"case"'):
+                continue
+            e = json.loads(l)
+            if len(e['defs']) >= 3 and any(len(d['obs']['iter']) >= 2 for d in e['defs']):
+                p = os.path.join(ctx.sub('canary'), 'orig.ndjson')
+                vlib.write_trace(p, hdr, [['{"op":"reset"}', json.dumps(e)]])
+                if _validate(ctx, p)['accepted']:
+                    cand = e
+                    break
+    if cand is None:
+        ctx.notes.append('canary skipped: no accepted event to corrupt')
+        return
+
+    def swap(e):
+        d = [d for d in e['defs'] if len(d['obs']['iter']) >= 2][0]
+        d['obs']['iter'][0], d['obs']['iter'][1] = d['obs']['iter'][1], d['obs']['iter'][0]
+
+    def holds(e):
+        e['holds'][-1][0] = not e['holds'][-1][0]
+
+    def contains(e):
+        e['contains'][0][-1] = not e['contains'][0][-1]
+    for name, f in (('two iterated items swapped', swap), ('one Holds answer flipped', holds), ('one Contains answer flipped', contains)):
+        e = json.loads(json.dumps(cand))
+        f(e)
+        p = os.path.join(ctx.sub('canary'), 'corrupt.ndjson')
+        vlib.write_trace(p, hdr, [['{"op":"reset"}', json.dumps(e)]])
+        if _validate(ctx, p)['accepted']:
+            raise vlib.Machinery('canary: TLC accepted an event with %s' % name)
+    ctx.cov['canary'] = 'an accepted event with (a) two iterated items swapped, (b) a Holds answer flipped, (c) a Contains answer flipped is rejected'
+    ctx.log('canary: 3 corrupted events rejected')
+
+
+def _threadsafe(ctx):
+    """Ctx.sub numbers the scratch directories with an unguarded counter and is called from the
+    validation threads (via Ctx.specdir): two threads could be handed the same directory."""
+    lock = threading.Lock()
+    sub = ctx.sub
+
+    def locked(name):
+        with lock:
+            return sub(name)
+    ctx.sub = locked
+
+
 def run(ctx):
     quick = ctx.tier == 'quick'
+    _threadsafe(ctx)
     # 1. the model
     _again(ctx, 'model check', lambda: vlib.model_check(
         ctx, 'OciScopeMC.tla', 'OciScopeMC_%s.cfg' % ('quick' if quick else 'thorough'),
@@ -204,7 +260,7 @@ def run(ctx):
     t1 = os.path.join(td, 'tlc.ndjson')
     vlib.run_harness(ctx, vh, ['scope', '-cases', cp, '-seed', str(ctx.seed), '-full-every', '1' if quick else '16', '-out', t1])
     traces = [t1]
-    nrand = 1500 if quick else 40000
+    nrand = 1500 if quick else 30000
     per = 10000
     i = 0
     while nrand > 0:
@@ -223,8 +279,10 @@ def run(ctx):
                           dict(recorded_tlc_case=_sample(t1, 1, skip=37)), dict(recorded_random=_sample(traces[-1], 2))]
     ctx.log('%d trace lines' % nlines)
     # 3. TLC judges every event
-    shard = max(400, min(6000, nlines // vlib.NCPU + 2))
+    shard = max(800, nlines // 8 + 2) if quick else 6000
     _judge(ctx, traces, shard, 'ociauth.Scope vs OciScope')
+    if not quick:
+        _canary(ctx, traces[-1])
     ctx.assumptions += ['byte order and lexical class of the input strings are computed by the harness (Go sort.Strings, strings.Count) and '
                         'handed to TLC as data (TLC cannot compare strings); the specification checks only that the enumeration is injective',
                         'rendering of a field structure to a scope string is done by the harness and re-derived by TLC (string concatenation) for every event',
@@ -236,6 +294,7 @@ def run(ctx):
 
 
 def replay(ctx, path):
+    _threadsafe(ctx)
     vh = vlib.build_harness(ctx)
     out = os.path.join(ctx.sub('replay'), 'trace.ndjson')
     vlib.run_harness(ctx, vh, ['scope', '-replay', path, '-seed', str(ctx.seed), '-out', out])
